@@ -94,7 +94,9 @@ type ifAB interface {
 func (tS) sealed() {}
 func (tO) sealed() {}
 func (tN) sealed() {}
-type ifN interface{ Nobody() }
+// ifN: implemented by nobody IN THE UNIVERSE — but its method set is fmt.Stringer's, which plenty of types outside it
+// have (a value the framework itself might put into a scope must not answer for it)
+type ifN interface{ String() string }
 
 const (
 	tyS = iota
